@@ -2984,7 +2984,7 @@ fn run(v: &Value) -> Result<String, String> {
             let rt = tokio::runtime::Builder::new_multi_thread().worker_threads(2).enable_all().build().unwrap();
             let out: Result<String, String> = rt.block_on(async {
                 let mut cases = 0;
-                for subscribe in [false, true] { for flag in [1u8, 2, 255] {
+                for mode in [0u8, 1, 2] { let subscribe = mode == 1; for flag in [1u8, 2, 255] {
                     let listener = tokio::net::TcpListener::bind("127.0.0.1:0").await.map_err(|e| e.to_string())?;
                     let addr = listener.local_addr().unwrap();
                     tokio::spawn(async move {
@@ -3003,8 +3003,11 @@ fn run(v: &Value) -> Result<String, String> {
                     });
                     let client = repe::WebSocketClient::connect(&format!("ws://{addr}/repe")).await.map_err(|e| e.to_string())?;
                     let mut sub = if subscribe { Some(client.subscribe_notifies().map_err(|e| format!("{e:?}"))?) } else { None };
+                    // mode 2: a subscriber whose receiver was dropped without unsubscribing -- the push cannot be delivered as a notification
+                    // and must still not be handed to the call in flight
+                    if mode == 2 { drop(client.subscribe_notifies().map_err(|e| format!("{e:?}"))?); }
                     let v = tokio::time::timeout(std::time::Duration::from_secs(5), client.call_json("/a", &serde_json::json!({}))).await.map_err(|_| format!("subscriber={subscribe} flag={flag}: the call hung"))?.map_err(|e| format!("subscriber={subscribe} flag={flag}: the call failed: {e}"))?;
-                    if v["kind"] != "answer" { return Err(format!("subscriber={subscribe}, notify flag {flag}: a pushed frame that reuses the id of a call in flight was delivered to that call as its response ({v})")); }
+                    if v["kind"] != "answer" { return Err(format!("subscriber mode {mode} (0 none, 1 live, 2 receiver dropped), notify flag {flag}: a pushed frame that reuses the id of a call in flight was delivered to that call as its response ({v})")); }
                     if let Some(rx) = sub.as_mut() {
                         let got = tokio::time::timeout(std::time::Duration::from_secs(5), rx.recv()).await.map_err(|_| format!("flag={flag}: the subscriber never saw the push"))?;
                         if got.is_none() { return Err(format!("flag={flag}: the notification stream ended")); }
